@@ -4,13 +4,62 @@ NOTES = ("Technique family: runtime monitoring and sanitizers. Every verdict is 
          "evidence files report what the monitors saw. See DESIGN.md.")
 
 ENGINES = [
+    {"name": "model", "path": "harness/src/engines/model.rs", "serves_properties": ["C01", "C10", "C11", "C12", "C13", "C14", "C16"],
+     "kind_free_text": "differential runtime monitor: seeded single-threaded programs over the whole public API executed on the real store and on the reference model M1, compared after every call (result + whole physical state via the H4 accessor); focus modes bias the generator"},
+    {"name": "layout", "path": "harness/src/engines/layout.rs", "serves_properties": ["C10", "C05"],
+     "kind_free_text": "oracle: independent codec M6 decodes the raw device after every acknowledged flush and is compared with the model and the store's own snapshot; partition invariant of the data area"},
     {"name": "fsm", "path": "harness/src/engines/fsm.rs", "serves_properties": ["C06"],
      "kind_free_text": "differential monitor: FreeSpaceManager vs bitmap reference, exhaustive over reachable (state, call) pairs on tiny devices + random sequences"},
 ]
 
 NOT_YET = {}
 
+_MODEL_NOTE = ("Trusted: reference model M1 and (where used) independent codec M6; virtual clock hook; H4 read-only accessors. "
+               "Bounded program length (120/220 calls), key alphabet (8-70 keys) and value sizes; coverage is what the seeds reach, reported as (method x residency x outcome x config) cells.")
+
 TEXT = {
+    "C01": {
+        "engine": "model",
+        "technique": "runtime differential monitoring against an executable last-writer-wins reference model, state compared after every call",
+        "level_text": "Seeded single-threaded programs over every public method run on all 14 configurations {memory, persistent} x {cache} x {ttl} x {v1,v2,v3}; after every call the result and the whole physical state (keys, timestamps, expiries, lengths, index agreement, len, memory_usage) are compared with the model; flush/reopen are placed randomly and systematically (flush-after-every-write and reopen-at-i variants) so each method is observed against resident, cached, on-disk-only, deferred and recovered generations (residency is read from the store and tallied). Exploration: held on the programs executed.",
+        "level_note": _MODEL_NOTE,
+    },
+    "C10": {
+        "engine": "model+layout",
+        "technique": "runtime monitoring with an independent from-scratch decoder of the device file after every acknowledged flush (plus golden files of the pinned release)",
+        "level_text": "Programs on v1, v2 and v3 devices; after every flush() (and after reopen+flush) the raw file is decoded by the independent codec (own CRC32C, metadata newest-valid-generation rule, journal slots, tokens, markers) and must yield exactly the model's keys/values/timestamps/expiries, a clear journal, metadata counters equal to the live totals, zero padding, complete markers on every freed block, and a data area exactly partitioned between live extents and free runs.",
+        "level_note": _MODEL_NOTE + " 'Documented layout' = the layout as read from the pinned source; M6 is itself pinned by the selftest and the golden corpus.",
+    },
+    "C11": {
+        "engine": "model",
+        "technique": "runtime differential monitoring under a virtual clock stepped to expiry-1/expiry/expiry+1 (sequential part)",
+        "level_text": "TTL-biased programs under a virtual clock: every value-reading method is probed at expiry-1 ns, exactly at expiry and at expiry+1 ns; expiry instants are compared exactly before/after flush and clean reopen (TTL on and off); TTL-only updates of on-disk-only keys keep the value. Sequential exploration; sweeper and crash interleavings are covered by the sweeper/crash engines when registered for this property.",
+        "level_note": _MODEL_NOTE,
+    },
+    "C12": {
+        "engine": "model",
+        "technique": "runtime monitor of assigned timestamps (read back through an accessor) over mixed explicit/automatic programs incl. extreme values, across flush and reopen",
+        "level_text": "After every accepted automatically timestamped call the assigned timestamp is read back and must exceed the key's previous generation, every explicit timestamp accepted for the key since open, the timestamp recovered from disk, and the current (virtual) time; an automatic call refused as older on a key the application never pinned is a violation; an explicit timestamp carried only by failing calls must never be reached by later automatic ones. One known finding (clock-shard saturation by near-max explicit timestamps) is recorded.",
+        "level_note": _MODEL_NOTE,
+    },
+    "C13": {
+        "engine": "model",
+        "technique": "runtime differential monitoring of len()/memory_usage() after every call, with memory limits (sequential part)",
+        "level_text": "Memory-biased programs with limits admitting only some writes: after every call memory_usage() must equal the sum over live keys of (measured overhead + key + value), len() the number of live keys, usage never above the limit, refused writes change nothing (same record objects), and draining every key returns usage to zero; across flush and recovery. Concurrent admission is covered by the concurrency engine when registered.",
+        "level_note": _MODEL_NOTE,
+    },
+    "C14": {
+        "engine": "model",
+        "technique": "runtime differential monitoring of range_query against the model's ordered map; ordered/hashed index agreement at every quiescent point (sequential part)",
+        "level_text": "Range-biased programs over byte-string keys with shared prefixes, empty/0x00/0xff bounds, start>end, limits 0/1/exact/usize::MAX, expired entries in the middle, all residencies; results must equal the model's; after every call the ordered index and the hash index hold the same keys pointing at the same record objects. Concurrent scans are covered by the concurrency engine when registered.",
+        "level_note": _MODEL_NOTE,
+    },
+    "C16": {
+        "engine": "model",
+        "technique": "runtime differential monitoring: identical model, cache on vs cache off, with cache hits confirmed through statistics and the H5 accessor (sequential part)",
+        "level_text": "Read-heavy programs with frequent flushes on paired configurations (cache on / off) are each compared step by step with the same reference model, so any call whose result depends on the cache is a mismatch; hits are confirmed (cache_hits delta while the key is cached). Covers updates, deletes, re-creation with lower timestamps, TTL changes and restarts masking stale entries. Cache-level accounting/eviction and concurrent staleness are covered by the cache/concurrency engines when registered.",
+        "level_note": _MODEL_NOTE,
+    },
     "C06": {
         "engine": "fsm",
         "technique": "runtime differential monitor against a bitmap reference model (exhaustive state x call enumeration on tiny devices, seeded random sequences)",
